@@ -125,6 +125,49 @@ def unit_canary(variant):
     return u
 
 
+def unit_bounded(lo, hi):
+    """bounded stand-in (never counted as proved): the real text form and bit rows of every response code whose low 12 bits
+    lie in [lo, hi), with the upper 20 bits 0, all ones and one mixed pattern, against the spec evaluated concretely; it
+    decides when the symbolic comparison cannot (texts of a different shape, order of table look-ups)"""
+    from tpmstream.spec.common.tpm_rc import TPM_RC
+
+    u = UnitResult(f"XC18/{lo:#x}-{hi:#x}")
+    u.functions = FUNCS if "FUNCS" in globals() else ["tpmstream.spec.common.tpm_rc:TPM_RC"]
+    L = layout()["rc"]
+    vt = z3.Int("v")
+    dis, n = [], 0
+    for low in range(lo, hi):
+        for high in (0, 0xFFFFF000, 0x5A5A5000):
+            v = high | low
+            n += 1
+            env = ConcreteEnv([(vt, z3.IntVal(v))])
+            sub = [(vt, z3.IntVal(v))]
+            try:
+                exp_rows = rc_rows_spec(env, vt, L)
+                exp_text = rc_text_spec(env, vt, L)
+                if exp_text is None:
+                    continue  # outside the property's quantifier (TPM 1.2 style codes)
+                exp_text = concretize(exp_text, sub)
+                # rows first: formatting must not be needed to make them right
+                rows = [(r._value, r._name, r._details) for r in TPM_RC(v).attributes()]
+                if exp_rows is not None:
+                    want = [(a, b, concretize(c, sub)) for a, b, c in exp_rows]
+                    masks = [a for a, _, _ in rows]
+                    if want and (sum(masks) != 0xFFFFFFFF or any(masks[i] & masks[j] for i in range(len(masks)) for j in range(i))):
+                        dis.append({"input": {"value": hex(v)}, "detail": f"bit rows of {v:#010x} do not partition the word: masks {[hex(m) for m in masks]}", "site": "tpm_rc.py:attributes"})
+                    elif sorted(rows, key=lambda r: r[0]) != sorted(want, key=lambda r: r[0]):
+                        dis.append({"input": {"value": hex(v)}, "detail": f"bit rows of {v:#010x}: {sorted(rows)[:3]} expected {sorted(want)[:3]}", "site": "tpm_rc.py:attributes"})
+                for how, f in (("str", str), ("format", lambda x: format(x, ""))):
+                    act = f(TPM_RC(v))
+                    if act != exp_text:
+                        dis.append({"input": {"value": hex(v)}, "detail": f"{how}(TPM_RC({v:#010x})) = {act!r} expected {exp_text!r}", "site": "tpm_rc.py:__format__"})
+            except Exception as e:  # noqa
+                dis.append({"input": {"value": hex(v)}, "detail": f"TPM_RC({v:#010x}): {type(e).__name__}: {e}", "site": "tpm_rc.py"})
+    u.bounded.append({"name": f"response-codes/{lo:#x}-{hi:#x}", "bound": "every value of the low 12 bits in the range x 3 patterns of the upper 20 bits; rows are taken before the text", "evaluations": n, "disagreements": dis[:8], "all_disagreements": len(dis)})
+    u.obligations.append({"name": f"{u.name}/ran", "kind": "bounded-bookkeeping", "site": "", "status": "proved", "backend": "bookkeeping", "seconds": 0, "model": None, "detail": f"{n} codes"})
+    return u
+
+
 def replayer(obd):
     """run the real code natively on the solver's value and compare with the spec evaluated concretely"""
     from tpmstream.spec.common.tpm_rc import TPM_RC
@@ -171,6 +214,7 @@ def run(tier, seed, only=None):
     jobs = [(unit_text, ("format",)), (unit_text, ("str",)), (unit_rows, ()), (unit_tables, ())]
     for v in ("swap-warn-error", "fmt1-seven-bits", "param-three-bits"):
         jobs.append((unit_canary, (v,)))
+    jobs += [(unit_bounded, (lo, lo + 0x100)) for lo in range(0, 0x1000, 0x100)]
     if only:
         jobs = [j for j in jobs if only in repr(j)]
     rep.add(run_units(jobs))
